@@ -53,8 +53,19 @@ func zzH_C18_gater_penalties(t *zzT) {
 	var sum [2]int     // model: total per identity
 	var banAt [2]int64 // model: clock of the last penalty that left the total ≥ threshold
 	for k := 0; k < n; k++ {
+		dt := int64(t.U32(t.Name("dt", k)))
 		if t.Symbolic() {
-			zzClockSec += int64(t.U32(t.Name("dt", k)))
+			zzClockSec += dt
+		} else {
+			// natively the real clock cannot be advanced: the gater only ever compares time.Now() with
+			// the absolute expiry instants it stored, so "dt seconds pass" ≡ every stored instant (and
+			// the model's) moves dt seconds into the past
+			for _, info := range cg.peerScore {
+				if info.expiration != -1 {
+					info.expiration -= dt
+				}
+			}
+			banAt[0], banAt[1] = banAt[0]-dt, banAt[1]-dt
 		}
 		who := t.Choice(t.Name("who", k), 2)
 		score := t.Int(t.Name("score", k))
